@@ -30,14 +30,21 @@ pub struct Mix {
     pub clear: u32,
     pub reserve: u32,
     pub iterate: u32,
+    /// compute_if_present whose closure panics (caught by the worker; must leave the entry as it was)
+    pub panic_compute: u32,
+    /// retain / retain_force whose predicate panics at its j-th call (caught by the worker)
+    pub panic_retain: u32,
 }
+
+/// payload of the panics the workers inject into callbacks
+pub struct InjectedPanic;
 
 impl Mix {
     pub fn standard() -> Mix {
-        Mix { get: 22, get_kv: 5, contains: 5, insert: 25, try_insert: 10, remove: 14, remove_entry: 5, compute_some: 6, compute_none: 3, compute_cond: 3, retain: 0, retain_force: 0, clear: 0, reserve: 1, iterate: 1 }
+        Mix { get: 22, get_kv: 5, contains: 5, insert: 25, try_insert: 10, remove: 14, remove_entry: 5, compute_some: 6, compute_none: 3, compute_cond: 3, retain: 0, retain_force: 0, clear: 0, reserve: 1, iterate: 1, panic_compute: 0, panic_retain: 0 }
     }
     fn total(&self) -> u32 {
-        self.get + self.get_kv + self.contains + self.insert + self.try_insert + self.remove + self.remove_entry + self.compute_some + self.compute_none + self.compute_cond + self.retain + self.retain_force + self.clear + self.reserve + self.iterate
+        self.get + self.get_kv + self.contains + self.insert + self.try_insert + self.remove + self.remove_entry + self.compute_some + self.compute_none + self.compute_cond + self.retain + self.retain_force + self.clear + self.reserve + self.iterate + self.panic_compute + self.panic_retain
     }
 }
 
@@ -250,6 +257,58 @@ fn worker(m: &AnyMap, cfg: &RoundCfg, tid: usize, seed: u64, bar: &Barrier) -> (
                     // more than one closure call is reported as an impossible observation
                     let saw = if r.calls > 1 { Some(u64::MAX) } else { saw };
                     evs.push(Ev { thread: t, key, op: Op::Compute { saw, out, res: r.res }, call, ret });
+                } else if pick!(mx.panic_compute) {
+                    // the closure panics: the panic must reach us, the entry must stay as it was.
+                    // recorded as a read of what the closure was shown (or of absence)
+                    let mut seen: Option<u64> = None;
+                    let call = tick();
+                    crate::util::QUIET_PANICS.with(|q| q.set(true));
+                    let r = std::panic::catch_unwind(std::panic::AssertUnwindSafe(|| {
+                        api.compute(key, |k, cur| -> Option<u64> {
+                            seen = Some(if k == key { cur } else { u64::MAX });
+                            std::panic::panic_any(InjectedPanic)
+                        })
+                    }));
+                    crate::util::QUIET_PANICS.with(|q| q.set(false));
+                    let ret = tick();
+                    match r {
+                        Ok(c) if c.calls == 0 && c.res.is_none() => evs.push(Ev { thread: t, key, op: Op::Get { res: None }, call, ret }),
+                        // the closure ran and yet the call returned normally: the panic was swallowed
+                        Ok(_) => evs.push(Ev { thread: t, key, op: Op::Get { res: Some(u64::MAX) }, call, ret }),
+                        Err(p) if p.is::<InjectedPanic>() => evs.push(Ev { thread: t, key, op: Op::Get { res: seen }, call, ret }),
+                        Err(p) => std::panic::resume_unwind(p),
+                    }
+                } else if pick!(mx.panic_retain) {
+                    let force = rng.chance(1, 2);
+                    let at = rng.range(1, 6);
+                    let m3 = rng.range(2, 4);
+                    let r3 = rng.below(m3);
+                    let mut calls = 0u64;
+                    let mut verdicts: Vec<(u64, u64, u64)> = Vec::new();
+                    let nkeys = cfg.nkeys;
+                    let pred = |k: u64, v: u64| {
+                        calls += 1;
+                        if calls == at {
+                            std::panic::panic_any(InjectedPanic)
+                        }
+                        let keep = k >= nkeys || k % m3 != r3;
+                        if !keep {
+                            verdicts.push((k, v, tick()));
+                        }
+                        keep
+                    };
+                    crate::util::QUIET_PANICS.with(|q| q.set(true));
+                    let r = std::panic::catch_unwind(std::panic::AssertUnwindSafe(|| if force { api.retain_force(pred) } else { api.retain(pred) }));
+                    crate::util::QUIET_PANICS.with(|q| q.set(false));
+                    let ret = tick();
+                    if let Err(p) = r {
+                        if !p.is::<InjectedPanic>() {
+                            std::panic::resume_unwind(p);
+                        }
+                    }
+                    for (k, v, at) in verdicts {
+                        evs.push(Ev { thread: t, key: k, op: if force { Op::ForceRemove } else { Op::CondRemove { v } }, call: at, ret });
+                    }
                 } else if pick!(mx.retain) || pick!(mx.retain_force) {
                     let force = rng.chance(mx.retain_force as u64, (mx.retain + mx.retain_force).max(1) as u64);
                     let m3 = rng.range(2, 4);
